@@ -57,7 +57,10 @@ ResidualBits(res, bs, order, method, po, params) ==
                       ELSE IF pr[1] = "rawrice"
                       THEN PutU(pr[2], pbits) \o FoldLeft(LAMBDA a, r : a \o PutUnary(pr[3]) \o PutU(pr[4], pr[2]), <<>>, rs)
                       ELSE PutU(esc, pbits) \o PutU(pr[2], 5) \o FoldLeft(LAMBDA a, r : a \o PutS(r, pr[2]), <<>>, rs)
-    IN PutU(method, 2) \o PutU(po, 4) \o FoldLeft(LAMBDA a, k : a \o Part(k), <<>>, [k \in 1..np |-> k])
+        \* (balanced concatenation: with 2^15 partitions a left fold would copy the growing bit string 32768 times)
+        RECURSIVE Cat(_, _)
+        Cat(lo, hi) == IF lo > hi THEN <<>> ELSE IF lo = hi THEN Part(lo) ELSE LET m == (lo + hi) \div 2 IN Cat(lo, m) \o Cat(m + 1, hi)
+    IN PutU(method, 2) \o PutU(po, 4) \o Cat(1, np)
 ResidualFits(res, bs, order, method, po, params) ==
     LET np == P2(po)
         psz == bs \div np
